@@ -102,7 +102,12 @@ func C11_peers_agree() {
 	}
 	// extensions
 	var e Extension
-	switch vChoose("ext", 4) {
+	switch vChoose("ext", 5) {
+	case 4: // two offers, both with (different) parameters, both accepted
+		pv := vU8("paramvalue")
+		vAssume(vIn(pv, '0', '9'))
+		d.Extensions = []httphead.Option{httphead.NewOption("x-a", map[string]string{"p": string([]byte{pv})}), httphead.NewOption("x-b", map[string]string{"q": "22"})}
+		u.Extension = func(o httphead.Option) bool { return true }
 	case 1: // permessage-deflate offered, negotiated by the wsflate extension
 		d.Extensions = []httphead.Option{(Parameters{ClientMaxWindowBits: 1, ServerNoContextTakeover: vChoose("snct", 2) == 1}).Option()}
 		e = Extension{Parameters: Parameters{ServerNoContextTakeover: true, ClientNoContextTakeover: vChoose("cnct", 2) == 1, ClientMaxWindowBits: []WindowBits{0, 10}[vChoose("cbits", 2)]}}
@@ -142,6 +147,10 @@ func C11_peers_agree() {
 	}
 	vAssert(vEqStr(chs.Protocol, peer.srvHS.Protocol), "peers.same_subprotocol")
 	vAssert(vOptsEqual(chs.Extensions, peer.srvHS.Extensions), "peers.same_extensions")
+	// ... and with what was offered (names and parameter values), when the server takes offers as they are
+	if u.Extension != nil && len(chs.Extensions) == len(d.Extensions) {
+		vAssert(vOptsEqual(chs.Extensions, d.Extensions), "peers.extensions_as_offered")
+	}
 	// the subprotocol is the first of the client's list the selector accepts
 	want := ""
 	found := false
